@@ -190,3 +190,109 @@ PROPS["C18"] = {
     "outside": "the ~30 console handlers' call sites; how the privilege group is stored on the user and copied into the session",
     "explanation": "bounded symbolic evaluation of the privilege algebra and the two index listing functions from the real source into SMT",
 }
+
+# ---------------------------------------------------------------------------------------------------
+# Engine K properties on the raft file store
+# ---------------------------------------------------------------------------------------------------
+PRIV["c02"] = "raft::filestore::raftlog::verif_priv::proofs::%s"
+RL = "src/raft/filestore/raftlog/mod.rs"
+_K_ASSUME = [
+    "std::backtrace::Backtrace::capture stubbed to Backtrace::disabled(); <anyhow::Error as Drop>::drop stubbed to a no-op (errors are leaked; no property observes them)",
+    "tokio::fs::File is the in-memory simfs of /verif/shim (POSIX regular-file semantics, every call atomic and in program order) under cfg(kani); the native replay uses real files",
+]
+_C02_KERNELS = [
+    H("c02", "k02_2_rewind_k1", "index of 2 entries: interval 1..=128, start < 2^40, byte delta 4..2^31 symbolic; every cut index inside the log",
+      ["LogInnerManager::get_file_index_by_log_index"], t_quick=600),
+    H("c02", "k02_2_rewind_k2", "index of 3 entries, same ranges", ["LogInnerManager::get_file_index_by_log_index"], t_quick=600),
+    H("c02", "k02_2_rewind_k3", "index of 4 entries, same ranges", ["LogInnerManager::get_file_index_by_log_index"], tier="thorough", t_quick=900),
+    H("c02", "k02_3_read_indexs_k2", "index area of 2 written entries (byte deltas 4..2^31 symbolic) in a 48-byte window, interval 1..=128",
+      ["LogInnerManager::read_indexs", "write_varint64", "read_varint64_offset", "inner_sizeof_varint"], t_quick=600),
+    H("c02", "k02_3_read_indexs_k3", "3 written entries", ["LogInnerManager::read_indexs"], tier="thorough", t_quick=900),
+    H("c02", "k02_4_start_index_k3", "index of 4 entries, every requested start index < 2^41", ["LogInnerManager::get_start_index"], t_quick=600),
+]
+PROPS["C02"] = {
+    "level": "model_checking",
+    "files": [RL, "src/common/protobuf_utils.rs", "src/raft/filestore/model.rs"],
+    "kani": _C02_KERNELS,
+    "assumptions": _K_ASSUME + ["index entries are exactly what write() creates: one per index_interval records, byte delta >= 4, data file < 2 GB"],
+    "outside": "multi-actor RaftLogManager / FileStore message flow; the file-level scenarios at the literal 4096 / 1024-byte scale (see DESIGN.md section 3)",
+}
+PROPS["C03"] = {
+    "level": "model_checking",
+    "files": [RL],
+    "kani": [h for h in _C02_KERNELS if h.name.startswith("k02_2")],
+    "assumptions": PROPS["C02"]["assumptions"],
+    "outside": "RaftLogManager::strip_log_to_index file selection (needs actors); async-raft's conflict path",
+}
+PROPS["C19"] = {
+    "level": "model_checking",
+    "files": ["src/sequence/model.rs", "src/common/sequence_utils.rs", "src/sequence/mod.rs", "src/config/core.rs"],
+    "kani": [
+        H("c19", "k19_1_seqgroup_fifo", "every schedule of <=9 steps over {GetNextId, FillRange delivery, fetch completion in issue order}; step 1..=2; <=4 fetches",
+          ["SeqGroup::{next_id,apply_range,need_apply,mark_apply,clear_apply_mark}", "SeqRange::{next_id,renew,has_next}"], t_quick=900),
+        H("c19", "k19_1_seqgroup_any_order", "same, fetch completions in any order", ["SeqGroup::*"], t_quick=900),
+        H("c19", "k19_3_simple_sequence_6", "every history of <=6 steps over {publish via leader, leader change, snapshot, restart with snapshot + log-suffix replay} on two replicas; batch 1..=3",
+          ["SimpleSequence::{next_state,set_valid_last_id,set_last_id,get_end_id}"], t_quick=900),
+        H("c19", "k19_4_sections", "every start < 2^62, batch 1..=1000, section size <= 10^6", ["SimpleSequence::{next_id,next_section,get_end_id}"], t_quick=300),
+    ],
+    "assumptions": _K_ASSUME[:1] + [
+        "SeqGroup is driven by the message protocol of SequenceManager::{handle,handle_result} (transcribed in the harness; the SeqGroup / SimpleSequence methods are the real ones)",
+        "the Raft range allocator hands out disjoint increasing ranges in issue order (SequenceDbManager::next_range)",
+        "config history ids: a publish is issued by the leader, committed, and applied on both replicas before the next step; leadership moves only between such steps",
+    ],
+    "outside": "SequenceDbManager (HashMap state) and ConfigActor::set_config itself (HashMap state: out of Kani's reach, see DESIGN.md); cross-node ordering of sequence-service ids",
+}
+PROPS["C05"] = {
+    "level": "model_checking",
+    "files": ["src/raft/filestore/raftindex.rs", "src/common/byte_utils.rs", "src/raft/filestore/model.rs"],
+    "kani": [
+        H("c05", "k05_2_id_bin", "every u64", ["common::byte_utils::{id_to_bin,bin_to_id}"], t_quick=300),
+        H("c05", "k05_1_hard_state_fresh", "fresh index file; term, vote, last-applied arbitrary u64; optional write_last_applied_log; one reopen",
+          ["RaftIndexInnerManager::{init,write_index,write_last_applied_log,flush}", "RaftIndexDto<->RaftIndex codec", "FileMessageReader::read_next"], t_quick=1200),
+        H("c05", "k05_1_hard_state_with_log", "same with one LogRange in the catalogue", ["RaftIndexInnerManager::*"], t_quick=1200),
+    ],
+    "assumptions": _K_ASSUME + ["std::hash::RandomState::new stubbed to fixed keys (node_addrs stays empty)"],
+    "outside": "RaftIndexManager actor wrapper; membership / address maps with entries (HashMap inserts are out of Kani's reach here)",
+}
+PROPS["C01"] = {
+    "level": "model_checking",
+    "files": ["src/raft/filestore/raftsnapshot.rs", "src/raft/filestore/model.rs", "src/common/protobuf_utils.rs"],
+    "kani": [
+        H("c01", "k01_1_snapshot_fresh", "header (2 fields < 128) + one record with 1-byte key/value, arbitrary contents; fresh file",
+          ["SnapshotWriter::{init,write_record,flush}", "SnapshotReader::{init,read_record,get_header}", "SnapshotRecordDto / SnapshotHeaderDto codecs"], t_quick=1200),
+        H("c01", "k01_1_snapshot_leftover2", "same, after an earlier build left header + 2 records under the same name",
+          ["SnapshotWriter::*", "SnapshotReader::*"], t_quick=1200),
+    ],
+    "assumptions": _K_ASSUME + ["std::hash::RandomState::new stubbed to fixed keys"],
+    "outside": "the orchestration load_index -> load_snapshot -> load_log -> load_complete and the seven components' snapshot handlers (actors); this check covers the snapshot file format only",
+}
+
+
+def _c09(tier, seed):
+    from rs2smt import c09
+    return c09.run(tier, seed)
+
+
+def _c19_smt(tier, seed):
+    from rs2smt import c09
+    return c09.run(tier, seed, only_c19=True)
+
+
+PROPS["C09"] = {
+    "level": "model_checking",
+    "files": ["src/config/core.rs", "src/config/config_index.rs", "src/config/model.rs"],
+    "smt": _c09,
+    "trusted_base": ["rs2smt parser + symbolic evaluator (/verif/rs2smt); container models: HashMap/BTreeMap = dict with concrete keys iterated in key order, "
+                     "BTreeSet/HashSet = sorted list, Vec = list", "z3 5.1.0 (strings)"],
+    "assumptions": [
+        "get_md5(x) is modelled as the injective function 'md5:' ++ x (the md5 crate is outside the claim; md5 equality == content equality)",
+        "listener / subscriber are notification sinks; clock reads are constants",
+        "operations are applied through ConfigActor::set_config / del_config (what the ConfigRaftCmd handler calls after parsing the key); two keys in two tenants",
+        "listings: every API entry point queries with Some(tenant); the tenant == None branch of TenantIndex::query_config_page is not part of the claim",
+    ],
+    "outside": "HTTP / gRPC parameter parsing; fuzzy (like) filters; text size limits; the real md5; full-value import and temporary values (tmp flag) histories",
+    "explanation": "bounded symbolic execution of the config store's real source with arbitrary string contents",
+}
+PROPS["C19"]["smt"] = _c19_smt
+PROPS["C19"]["assumptions"].append("s19_5: ConfigActor::set_config is evaluated from its source (rs2smt) over every history of 3 operations; a publish carrying a history table id must leave "
+                                   "the replica's SimpleSequence at or above that id")
